@@ -28,6 +28,7 @@ import VotelibProofs.Lemmas.ScaleStar
 import VotelibProofs.Lemmas.ScaleBucklin
 import VotelibProofs.Lemmas.ScaleSTV
 import VotelibProofs.Lemmas.ScaleSequential
+import VotelibProofs.Lemmas.ScalePure
 import VotelibModel.ScaleFamilies
 import VotelibModel.Gen.Quota
 import Mathlib.Tactic.Ring
@@ -276,6 +277,27 @@ theorem majorityJudgmentPlus_scale (cfg : Score.Cfg) (hcfg : ScaleFreeCfg cfg) (
     Score.majorityJudgment .plus cfg (scaleScore k votes) n = Score.majorityJudgment .plus cfg votes n :=
   VL.Scale.majorityJudgmentPlus_scale cfg hcfg k hk votes n
 
+/-- FULL STATEMENT (FALSE of the current code, see `majorityJudgmentDefault_scale_witness`):
+      `∀ cfg votes n k, ScaleFreeCfg cfg → 0 < k → majorityJudgment .default cfg (scaleScore k votes) n = majorityJudgment .default cfg votes n`.
+    **Proved part**: MajorityJudgment with the DEFAULT tie-break (and with any tie-break) is scale invariant whenever the
+    medians decide all `n` places, i.e. the tie-break is not entered (`mjUntied`, a decidable predicate on the unscaled
+    profile; a refusal of the aggregation is the same refusal at every scale). -/
+theorem majorityJudgmentDefault_scale_partial (cfg : Score.Cfg) (hcfg : ScaleFreeCfg cfg) (k : Nat) (hk : 0 < k)
+    (votes : Score.SProfile) (n : Nat) (hu : VL.Scale.mjUntied cfg votes n = true) :
+    Score.majorityJudgment .default cfg (scaleScore k votes) n = Score.majorityJudgment .default cfg votes n :=
+  VL.Scale.majorityJudgment_untied_scale .default cfg hcfg k hk votes n hu
+
+/-- **The default tie-break of MajorityJudgment is scale DEPENDENT** (open finding `C11-mj-default-tiebreak-scale`): it
+    removes an ABSOLUTE number of median grades per step.  On `{(b:5):1, (a:3, b:2, c:2):1}` with two seats the evaluator
+    ends in `StatisticsError`, with every count tripled it elects `[a, b]` (a = 0, b = 1, c = 2). -/
+theorem majorityJudgmentDefault_scale_witness :
+    ¬ (∀ (cfg : Score.Cfg) (votes : Score.SProfile) (n k : Nat), ScaleFreeCfg cfg → 0 < k →
+        Score.majorityJudgment .default cfg (scaleScore k votes) n = Score.majorityJudgment .default cfg votes n) := by
+  intro h
+  have := h ⟨.medianLow, .none, 0, .off, 0⟩ [([(1, 5)], 1), ([(0, 3), (1, 2), (2, 2)], 1)] 2 3 (by decide) (by decide)
+  revert this
+  decide +kernel
+
 /-- **STAR** (score sums, then the Schulze run-off over the pairwise counts derived from the score ballots), any
     `runoff_added_count` / `runoff_added_fraction`. -/
 theorem star_scale (ac : Nat) (af : Rat) (cfg : Score.Cfg) (hcfg : ScaleFreeCfg cfg) (k : Nat) (hk : 0 < k)
@@ -318,6 +340,16 @@ theorem oklahoma_scale (k : Rat) (hk : 0 < k) (p : Convert.RProfile) (n : Nat) :
     elimination round reads the (negated) scores through `get_n_best` only; refusals of the Borda scorer included. -/
 theorem baldwin_scale (k : Rat) (hk : 0 < k) (p : Convert.RProfile) (n : Nat) :
     ShapeSeq.baldwin (scaleProfile k p) n = ShapeSeq.baldwin p n := VL.Scale.baldwin_scale k hk p n
+
+/-! ### exact proportional shares -/
+
+/-- **PureProportionality** (proportional.py L32-87; model VotelibModel/PureProportionality.lean) for EVERY configuration —
+    any seat number, any `prev_gains` (floors) and `max_seats` (caps), through every pass of the fixing loop: the seats per
+    vote become `budget/(k·total)`, so every share `k·v · budget/(k·total)` is literally the same number; the refusal
+    (ZeroDivisionError on a zero total of the parties still in play) is the same refusal. -/
+theorem pureProportionality_scale (k : Rat) (hk : 0 < k) (votes : Votes) (n : Nat) (prev maxS : Pure.IMap) :
+    Pure.pureProportionality (scaleVotes k votes) n prev maxS = Pure.pureProportionality votes n prev maxS :=
+  VL.Scale.pureProportionality_scale k hk votes n prev maxS
 
 /-! ### transferable vote -/
 
@@ -402,6 +434,8 @@ example : Condorcet.benham (scaleRanked ((10:Rat)^25 + 7)
 example : Appr.spav (scaleApproval ((10:Rat)^25 + 7) [([1, 2], 3), ([2, 3], 2), ([3], 2)]) 2 = .ok [2, 3] := by decide +kernel
 example : Appr.pav (scaleApproval ((10:Rat)^25 + 7) [([1, 2], 3), ([2, 3], 2), ([3], 2)]) 2
     = .ok [Slot.cand 2, Slot.cand 3] := by decide +kernel
+example : VL.Scale.mjUntied ⟨.medianLow, .none, 0, .off, 0⟩ [([(1, 3), (2, 5)], 2), ([(1, 4), (2, 1)], 1), ([(2, 2)], 1)] 1 = true := by
+  decide +kernel
 example : ScaleFreeCfg ⟨.medianLow, .none, 0, .off, 0⟩ ∧ ScaleFreeCfg ⟨.sum, .value 0, 0, .off, 0⟩ := by decide
 example : Score.scoreVoting ⟨.medianLow, .none, 0, .off, 0⟩ (scaleScore 7 [([(1, 3), (2, 5)], 2), ([(1, 4), (2, 1)], 1), ([(2, 2)], 1)]) 1
     = .ok [Slot.cand 1] := by decide +kernel
@@ -421,6 +455,8 @@ example : ShapeSeq.preferenceAddition ShapeSeq.coefOklahoma true (scaleProfile (
 example : Condorcet.tidemanN true (scaleRanked ((10:Rat)^25 + 7)
     [([.one 1, .one 2, .one 3], 2), ([.one 2, .one 3, .one 1], 2), ([.one 3, .one 1, .one 2], 1)]) 2
     = .ok [Slot.cand 1, Slot.cand 2] := by decide +kernel
+example : Pure.pureProportionality (scaleVotes ((10:Rat)^25 + 7) [(1, 7), (2, 2), (3, 1)]) 5 [(3, 1)] [(1, 3)]
+    = .ok [(1, 3), (3, 0), (2, 1)] := by decide +kernel
 example : relativeThreshold (1/3) false (scaleVotes ((10:Rat)^25 + 7) [(1,2),(2,1),(3,3)]) = .ok [3] := by decide +kernel
 example : getNBest (scaleVotes ((10:Rat)^25 + 7) [(1,5),(2,3),(3,3)]) 2 = [Slot.cand 1, Slot.tie [2,3]] := by decide +kernel
 
